@@ -231,7 +231,7 @@ def write_bundle(S, path):
             ins.append({"order_book_id": f["id"], "symbol": f["id"], "type": "Future", "round_lot": 1.0,
                         "contract_multiplier": f["mult"], "underlying_symbol": f["under"], "listed_date": "2000-01-01",
                         "de_listed_date": dl, "maturity_date": dl, "exchange": "SHFE",
-                        "trading_hours": "09:01-10:15,10:31-11:30,13:31-15:00"})
+                        "trading_hours": f.get("trading_hours", "09:01-10:15,10:31-11:30,13:31-15:00")})
     # underlying-level entries; a contract with its own entry ("under_info" holds what the underlying says) gets a contract-level one as well
     contract_infos = [dict({k_: v_ for k_, v_ in f["info"].items() if k_ != "underlying_symbol"}, order_book_id=f["id"]) for f in S["futures"] if f.get("under_info")]
     infos = list({f["info"]["underlying_symbol"]: f.get("under_info", f["info"]) for f in S["futures"]}.values()) + contract_infos or [{"underlying_symbol": "RB", "close_commission_ratio": 0.0001,
